@@ -46,11 +46,21 @@ def entries(v):
     return sorted([list(e) for e in tla_set(v)])
 
 
+SYS = '__cursors'
+HARMLESS_ON_SYS = {'FetchPartitionMetadata', 'FetchCursor', 'SetCursor', 'Subscribe', 'CreateStream', 'DeleteStream'}
+
+
+def subj_of(s):
+    return {'s1': 'j1', 's2': 'j2'}.get(s, 'jsys')
+
+
 def resource_of(call):
     if call['m'] == 'FetchMetadata':
         return '*'
     if call['m'] in GROUP_METHODS:
         return 'g1'
+    if call['m'] == 'PublishToSubject':
+        return subj_of(call['s'])
     return call['s']
 
 
@@ -64,8 +74,7 @@ def authorised(policy, call):
 
 CLIENTS = ['alice', 'bob']
 ACTIONS = sorted({action_of(m) for m in MODEL_METHODS})
-ALL_ENTRIES = sorted([c, r, a] for c in CLIENTS for r in ('s1', 's2', '*', 'g1') for a in ACTIONS) + \
-    [[c, '__cursors', 'Publish'] for c in CLIENTS]
+ALL_ENTRIES = sorted([c, r, a] for c in CLIENTS for r in ('s1', 's2', SYS, 'j1', 'j2', '*', 'g1') for a in ACTIONS)
 
 
 def sharpen(b, rng):
@@ -94,16 +103,56 @@ def sharpen(b, rng):
     return b
 
 
-def with_tail(b):
+def with_tail(b, rng=None):
     """completes a behaviour to: call, toggle the call's entry in the file, reload, same call again (the tail of
     MC_Authz: MCEdit, MCReload, MCCall) - revocation / grant must take effect for the next call, also for the next
     message of an open PublishAsync session"""
     c = b['steps'][0]['call']
+    if c['s'] == SYS and c['m'] not in HARMLESS_ON_SYS:
+        return b      # the second call would be an authorised write to the cursors stream (MC_Authz!MCCall guard)
     entry = [c['c'], resource_of(c), action_of(c['m'])]
     cur = list(b['cfg']['policy'])
     cur = sorted([e for e in cur if e != entry] if entry in cur else cur + [entry])
-    b['steps'] = [b['steps'][0], {'a': 'EditPolicy', 'policy': cur}, {'a': 'Reload'}, {'a': 'Call', 'call': dict(c)}]
+    mid = []
+    if rng is not None and rng.random() < 0.5:
+        # MCBreak / MCReloadFail: the file disappears and a reload fails before the corrected file is written
+        mid = [{'a': 'BreakFile'}, {'a': 'Reload'}]
+    b['steps'] = [b['steps'][0]] + mid + [{'a': 'EditPolicy', 'policy': cur}, {'a': 'Reload'}, {'a': 'Call', 'call': dict(c)}]
     return b
+
+
+OWNER = {'cid': 'owner', 'epoch': 1}
+NOSUB = {'cid': '', 'epoch': -1}
+
+
+def visible_variant(b):
+    """The same first call from the start situation (a state class of MC_Authz!MCInit) in which the call, were it
+    carried out, changes the world visibly: CreateStream on an absent stream, Subscribe+resume on a paused one, a
+    group subscription against the owner's entry, SetStreamReadonly(false) on a readonly stream, SetCursor without a
+    stored cursor, Join by a non-member / Leave by a member, everything else on an active stream with subscribers.
+    Random start situations hit these classes rarely (absent is 1 of 21)."""
+    import copy
+    nb = copy.deepcopy(b)
+    c = nb['steps'][0]['call']
+    nb['steps'] = [nb['steps'][0]]
+    if c['s'] == SYS:
+        return None
+    cls = {'exists': True, 'paused': False, 'readonly': False, 'len': 1, 'plain': 1, 'gsub': dict(OWNER)}
+    if c['m'] == 'CreateStream':
+        cls = {'exists': False, 'paused': False, 'readonly': False, 'len': 0, 'plain': 0, 'gsub': dict(NOSUB)}
+    elif c['m'] == 'Subscribe' and c['resume']:
+        cls.update(paused=True, plain=0, gsub=dict(NOSUB))
+    elif c['m'] == 'SetStreamReadonly' and not c['ro']:
+        cls.update(readonly=True, plain=0, gsub=dict(NOSUB))
+    if c['m'] not in GROUP_METHODS and c['m'] != 'FetchMetadata':
+        nb['cfg']['st'][c['s']] = cls
+    if c['m'] == 'SetCursor':
+        nb['cfg']['cursors'][c['s']] = -1
+    if c['m'] == 'JoinConsumerGroup':
+        nb['cfg']['members'] = ['owner']
+    elif c['m'] in GROUP_METHODS:
+        nb['cfg']['members'] = sorted({'owner', 'alice', 'bob'})
+    return nb
 
 
 def to_behaviour(bid, sim):
@@ -119,6 +168,8 @@ def to_behaviour(bid, sim):
             steps.append({'a': 'Call', 'call': s['last']['call']})
         elif a == 'EditPolicy':
             steps.append({'a': 'EditPolicy', 'policy': entries(sv(s['body'], 'policyFile'))})
+        elif a == 'BreakFile':
+            steps.append({'a': 'BreakFile'})
         else:
             steps.append({'a': 'Reload'})
     return {'id': bid, 'cfg': cfg, 'steps': steps}
@@ -135,7 +186,7 @@ def stratum(b):
     c = b['steps'][0]['call']
     s1 = b['cfg']['st'][c['s']]
     member = c['c'] in b['cfg']['members'] if c['m'] in GROUP_METHODS else False
-    return (c['m'], c['resume'], c['grp'], c['epoch'] if c['grp'] else 0, not unauthorised(b['cfg']['policy'], c), member,
+    return (c['m'], c['s'] == SYS, c['resume'], c['grp'], c['epoch'] if c['grp'] else 0, not unauthorised(b['cfg']['policy'], c), member,
             s1['exists'], s1['paused'], s1['readonly'], s1['gsub']['cid'] != '')
 
 
@@ -236,12 +287,12 @@ def run(rep, tier, seed, replay):
     for b in cands:
         by_stratum.setdefault(stratum(b), []).append(b)
     per = 1 if tier == 'quick' else 4
-    budget = 200 if tier == 'quick' else 1500
+    budget = 185 if tier == 'quick' else 1500
     chosen = []
     keys = sorted(by_stratum, key=str)
     rng.shuffle(keys)
     # unauthorised strata first: they are what the property is about
-    keys.sort(key=lambda k: k[4])
+    keys.sort(key=lambda k: k[5])
     for k in keys:
         lst = by_stratum[k]
         lst.sort(key=lambda b: -len(b['steps']))     # prefer the ones with edit / reload / second call
@@ -249,10 +300,27 @@ def run(rep, tier, seed, replay):
         rng.shuffle(head)
         chosen += head[:per]
     chosen = [sharpen(b, rng) for b in chosen[:budget]]
+    # one effect-visible start situation per (method, request shape) of the unauthorised first calls
+    seen_shape = set()
+    extra = []
+    for b in chosen:
+        c = b['steps'][0]['call']
+        k = (c['m'], c['resume'], c['grp'], c['ro'])
+        if k in seen_shape or not unauthorised(b['cfg']['policy'], c):
+            continue
+        v = visible_variant(b)
+        if v is not None:
+            class _Always:
+                def random(self):
+                    return 1.0
+            v = sharpen(v, _Always())
+            seen_shape.add(k)
+            extra.append(v)
+    chosen += extra
     for b in chosen:
         m = b['steps'][0]['call']['m']
         if len(b['steps']) < 4 and (m in ('PublishAsync', 'Subscribe') or rng.random() < 0.3):
-            with_tail(b)
+            with_tail(b, rng)
     # methods the model does not know are called generically by a client without any entry (added below after reflection)
     for n, b in enumerate(chosen):
         b['id'] = n + 1
